@@ -7,13 +7,35 @@ Local Open Scope N_scope.
 Lemma succeeds_res {A} (x : M A) a : succeeds x a -> fst (x 0) = Ok a.
 Proof. intro H. destruct (H 0) as [m' E]. now rewrite E. Qed.
 
-(* round trip on the current tree, outside the guard of finding uint-5to7 *)
+(* Marshal is canonical outside the guard of finding some-enum *)
+Lemma canonical_go t v :
+  has_type v t = true -> some_enum t v = false -> encode_go t v = spec_encode t v.
+Proof. intros H S. rewrite encode_go_encode by assumption. now apply encode_canonical. Qed.
+
+(* round trip on the current tree, outside the guards of findings uint-5to7 and some-enum *)
 Lemma roundtrip_current t v r :
-  wf_ty t = true -> has_type v t = true -> has_uint57 t v = false ->
-  decode_res current t (encode t v ++ r) = Ok (v, r).
+  wf_ty t = true -> has_type v t = true -> has_uint57 t v = false -> some_enum t v = false ->
+  decode_res current t (encode_go t v ++ r) = Ok (v, r).
 Proof.
-  intros W H G. unfold decode_res, run_decode. apply succeeds_res.
+  intros W H G S. rewrite encode_go_encode by assumption. unfold decode_res, run_decode. apply succeeds_res.
   apply (decode_encode current eq_refl); [assumption|assumption|now right].
+Qed.
+
+(* finding some-enum: Some(x) of an option-of-enum is marshalled without its option byte *)
+Lemma some_enum_witness :
+  let t := TOption (TEnum (TCons (Some 0) TU8 TNil)) in
+  let v := VSome (VEnum 0 (VN 7)) in
+  wf_ty t = true /\ has_type v t = true /\ some_enum t v = true /\
+  encode_go t v = [Byte.x00; Byte.x07] /\ spec_encode t v = [Byte.x01; Byte.x00; Byte.x07] /\
+  decode_res current t (encode_go t v) = Ok (VNone, [Byte.x07]).
+Proof. vm_compute. repeat split; reflexivity. Qed.
+
+Lemma canonical_go_refuted : exists t v,
+  wf_ty t = true /\ has_type v t = true /\ encode_go t v <> spec_encode t v.
+Proof.
+  exists (TOption (TEnum (TCons (Some 0) TU8 TNil))), (VSome (VEnum 0 (VN 7))).
+  destruct some_enum_witness as (W & H & _ & E & S & _). split; [exact W|]. split; [exact H|].
+  rewrite E, S. discriminate.
 Qed.
 
 (* round trip for a decodeUint that also takes the 5..7-byte mode: no exception *)
@@ -29,7 +51,7 @@ Qed.
 Lemma uint57_witness :
   wf_ty TUint = true /\ has_type (VN 4294967296) TUint = true /\
   encode TUint (VN 4294967296) = spec_encode TUint (VN 4294967296) /\
-  decode_res current TUint (encode TUint (VN 4294967296)) = Err 1%nat /\
+  decode_res current TUint (encode_go TUint (VN 4294967296)) = Err 1%nat /\
   has_uint57 TUint (VN 4294967296) = true.
 Proof. vm_compute. repeat split; reflexivity. Qed.
 
@@ -67,7 +89,7 @@ Lemma encode_prefix_witness :
 Proof. vm_compute. repeat split; reflexivity. Qed.
 
 Lemma roundtrip_refuted : exists t v,
-  wf_ty t = true /\ has_type v t = true /\ decode_res current t (encode t v) <> Ok (v, []).
+  wf_ty t = true /\ has_type v t = true /\ decode_res current t (encode_go t v) <> Ok (v, []).
 Proof.
   exists TUint, (VN 4294967296). destruct uint57_witness as (W & H & _ & E & _).
   split; [exact W|]. split; [exact H|]. rewrite E. discriminate.
